@@ -6,7 +6,8 @@
 (*                                                                         *)
 (* cfg.comps[c] = [kind, steps, off, ip, ins]                               *)
 (*    kind  "time" (fm.TimeComponent) | "pull" (component with a           *)
-(*          CallbackOutput, no time step)                                   *)
+(*          CallbackOutput, no time step) | "sink" (component without time *)
+(*          step whose inputs are CallbackInputs: it pulls on notification)*)
 (*    steps cyclic sequence of step lengths, off start offset from the     *)
 (*          composition start (0), ip initial pull during connect          *)
 (*    ins[i] = [src, chain]: chain[1] is the adapter next to the input,    *)
@@ -126,7 +127,10 @@ PullAll(cfg, s, c, i, t) ==
 (* it T, DelayToPush remembers T.                                          *)
 RECURSIVE NotifyLink(_, _, _, _, _)
 NotifyLink(cfg, s, l, j, T) ==
-  IF j = 0 THEN [ok |-> TRUE, s |-> s, log |-> <<>>]
+  IF j = 0 THEN
+     \* the notification arrived at the input: a push-based component ("sink", CallbackInput)
+     \* reacts by pulling the new data set
+     (IF cfg.comps[l[1]].kind = "sink" THEN PullFrom(cfg, s, l, 1, T) ELSE [ok |-> TRUE, s |-> s, log |-> <<>>])
   ELSE LET a == Chain(cfg, l)[j] IN
        IF a.k = "topush" THEN NotifyLink(cfg, [s EXCEPT !.ad[l][j].push = T], l, j - 1, T)
        ELSE IF IsBuf(a) THEN
